@@ -193,9 +193,22 @@ def unquote (s : GoStr) : GoStr :=
     else []
   | [] => []
 
+/-- `importSpec`: an import up to the closing quote of its path (what follows is a comment), without the
+blanks around it -/
+def importSpec (lit : GoStr) : GoStr :=
+  match lit.findIdx? (fun b => b == 34 || b == 96) with
+  | some q =>
+    match (lit.drop (q+1)).findIdx? (· == lit.getD q 0) with
+    | some n => trimSpace (lit.take (q + n + 2))
+    | none => trimSpace lit
+  | none => trimSpace lit
+
+/-- one of the imports goht adds itself, with or without a comment behind it -/
+def isOwnImport (lit : GoStr) : Bool := Gen.defaultImports.contains (importSpec lit)
+
 /-- `RootNode.addImport`: goht's own imports and textual duplicates are dropped, order is kept -/
 def addImport (ui : List Tok) (t : Tok) : List Tok :=
-  if Gen.defaultImports.contains t.lit || ui.any (·.lit == t.lit) then ui else ui ++ [t]
+  if isOwnImport t.lit || ui.any (·.lit == t.lit) then ui else ui ++ [t]
 
 def attrsSet (m : List (GoStr × Attr)) (k : GoStr) (a : Attr) : List (GoStr × Attr) :=
   if m.any (·.1 == k) then m.map (fun kv => if kv.1 == k then (k, a) else kv) else m ++ [(k, a)]
